@@ -75,6 +75,8 @@ func instancesFor(prop, tier string) []*Instance {
 		c13Instances(add, thorough)
 	case "C07":
 		c07Instances(add, thorough)
+	case "C11":
+		c11Instances(add, thorough, 0)
 	case "C08":
 		c08Instances(add, thorough)
 	case "C03":
@@ -390,6 +392,7 @@ func c09Instances(add func(*Instance), thorough bool) {
 	}
 	c01Instances(wrap, thorough, 1)
 	c02Instances(wrap, thorough, 1)
+	c11Instances(wrap, thorough, 1)
 }
 
 func c14Instances(add func(*Instance), thorough bool) {
@@ -812,6 +815,50 @@ func c07Instances(add func(*Instance), thorough bool) {
 						continue
 					}
 					add(&Instance{Func: "VerifC07Op", Params: with(par, "op", op, "w", w, "emp", emp, "mut", mut, "mk", 0, "pre", 0)})
+				}
+			}
+		}
+	}
+}
+
+func c11Instances(add func(*Instance), thorough bool, inv int) {
+	base := P("L", 7, "eff", 1, "xb", 0, "xm", -1, "inv", inv,
+		"ak", 2, "akeys", 0, "ac0", 1, "ac1", 1, "bk", 2, "bkeys", 0, "bc0", 1, "bc1", 1, "ck", 1, "ckeys", 0, "cc0", 1)
+	lists := []int{0, 1, 4, 12, 21, 11, 121, 123, 142, 44}
+	if thorough {
+		lists = append(lists, 1234, 321, 1213)
+	}
+	// sequential aggregates: symbolic keys anywhere in the key space
+	for g := 0; g <= 4; g++ {
+		for _, l := range lists {
+			if g == 4 && l < 10 {
+				continue // AndAny needs a non-empty list of filters
+			}
+			if inv == 1 && l != 123 && l != 142 {
+				continue
+			}
+			add(&Instance{Func: "VerifC11Aggregate", Params: with(base, "g", g, "lst", l, "w", 1)})
+			// other chunk kinds (run chunks; anchored arrays for the xor / bitmap kernels)
+			if l == 123 || l == 12 {
+				add(&Instance{Func: "VerifC11Aggregate", Params: with(base, "g", g, "lst", l, "w", 1, "ac1", 224, "bc0", 224, "akeys", 4, "bkeys", 4, "ckeys", 4,
+					"ac0", 21, "bc1", 22, "cc0", 21, "xb", 56, "xm", 15), Tier: inv})
+			}
+		}
+	}
+	// goroutine-based aggregates: worker counts 0..3, keys at the top of the key space, interleaved, wide and narrow spans
+	keyPats := [][2]int{{7, 8}, {4, 5}, {6, 4}, {8, 7}}
+	for g := 5; g <= 7; g++ {
+		for _, kp := range keyPats {
+			for _, w := range []int{0, 1, 2, 3} {
+				for _, l := range []int{12, 123, 142, 1, 0, 121} {
+					if (w == 0 || w == 3) && l != 123 && !thorough {
+						continue
+					}
+					if inv == 1 && (l != 123 || w > 1) {
+						continue
+					}
+					add(&Instance{Func: "VerifC11Aggregate", Params: with(base, "g", g, "lst", l, "w", w, "akeys", kp[0], "bkeys", kp[1], "ckeys", 4,
+						"ac0", 21, "ac1", 21, "bc0", 21, "bc1", 22, "cc0", 21, "xb", 56, "xm", 15)})
 				}
 			}
 		}
